@@ -265,7 +265,7 @@ pub open spec fn spec_tile_offsets(tm: &Tilemap) -> (int, int) {
 # ------------------------------------------------------------------------------------------------
 UD_FRAME = ("        final(self).layers@.len() == old(self).layers@.len(),\n")
 UNITS["userdata"] = {
-    "prelude_sections": ["errors", "rgba_only", "reader"],
+    "prelude_sections": ["errors", "rgba_only", "reader", "vec_extra"],
     "items": [
         {"kind": "struct", "file": "user_data", "name": "UserData", "keep": None, "rewrites": [("image::Rgba<u8>", "Rgba<u8>")]},
         {"kind": "struct", "file": "layer", "name": "LayerData", "keep": ["user_data"]},
@@ -284,19 +284,20 @@ impl CelsData {
     pub open spec fn at(&self, f: int, l: int) -> Option<RawCel> {
         if 0 <= f < self.data.len() && 0 <= l < self.data[f].len() { self.data[f][l] } else { None }
     }
-    /// `add_cel` under its contract (the real function uses Vec::resize_with + closures; its contract is the
-    /// Kani obligation k_cels_table and is exercised by x_cel_order_irrelevant) - ASSUMED in this unit
-    #[verifier::external_body]
-    pub fn add_cel(&mut self, frame_id: u16, cel: RawCel) -> (r: Result<()>)
-        ensures
-            final(self).data.len() == old(self).data.len(),
-            r is Ok ==> (frame_id as int) < old(self).data.len()
-                && final(self).at(frame_id as int, cel.data.layer_index as int) == Some(cel)
-                && forall|f: int, l: int| !(f == frame_id && l == cel.data.layer_index) ==> #[trigger] final(self).at(f, l) == old(self).at(f, l),
-            r is Err ==> forall|f: int, l: int| #[trigger] final(self).at(f, l) == old(self).at(f, l),
-    { unimplemented!() }
 }
 """},
+        {"kind": "fn", "file": "cel", "name": "check_valid_frame_id", "impl_of": "CelsData", "impl_filter": r"impl<P>\s+CelsData<P>", "impl_header": "CelsData", "ret": "r",
+         "rules": ["R1", "R6", "R11"],
+         "ensures": "        r is Ok <==> (frame_id as int) < self.data.len(),"},
+        {"kind": "fn", "file": "cel", "name": "add_cel", "key": "CelsData::add_cel", "impl_of": "CelsData", "impl_filter": r"impl<P>\s+CelsData<P>", "impl_header": "CelsData", "ret": "r",
+         "rules": ["R1", "R6", "R11"], "sig_rewrites": [("RawCel<P>", "RawCel")],
+         # closure contract spliced onto the real closure (annotation only)
+         "body_rewrites": [("|| None", "|| -> (e: Option<RawCel>) ensures e is None { None }")],
+         "ensures": ("        final(self).data.len() == old(self).data.len(),\n"
+                     "        r is Ok <==> ((frame_id as int) < old(self).data.len() && old(self).at(frame_id as int, cel.data.layer_index as int) is None),\n"
+                     "        r is Ok ==> final(self).at(frame_id as int, cel.data.layer_index as int) == Some(cel)\n"
+                     "            && forall|f: int, l: int| !(f == frame_id && l == cel.data.layer_index) ==> #[trigger] final(self).at(f, l) == old(self).at(f, l),\n"
+                     "        r is Err ==> forall|f: int, l: int| #[trigger] final(self).at(f, l) == old(self).at(f, l),")},
         {"kind": "fn", "file": "cel", "name": "cel_mut", "impl_of": "CelsData", "impl_filter": r"impl<P>\s+CelsData<P>", "impl_header": "CelsData", "ret": "r",
          "sig_rewrites": [("RawCel<P>", "RawCel")],
          "requires": "        (cel_id.frame as int) < old(self).data.len(),",
